@@ -293,6 +293,14 @@ def r7(ctx):
         ctx.check(bool(call_sites(tb, callee)), "forward:%s" % fn_.split("::")[-2], "%s forwards to the real layer" % fn_, tb.where(line=tb.line))
 
 
+def r8(ctx):
+    """'whatever the chunking in transit' rests on the link receive buffer's compaction (C06.R9) and 'lack a FIR segment' also on
+    the broadcast acceptance test of the assembler (C07.R8); both are evaluated here as well."""
+    import c06
+    import c07
+    c06.r9(ctx)
+    c07.r8(ctx)
+
 RULES = [
     ("C08.R1", "T2", "continuation segments: sequence AND source equality; rejects drop the assembly", r1),
     ("C08.R2", "T2", "no assembly without FIR; FIR restarts; unread fragment replaced", r2),
@@ -301,4 +309,5 @@ RULES = [
     ("C08.R5", "T8", "what the writer puts in FIN/FIR/SEQ and the 249-byte segmentation", r5),
     ("C08.R6", "T4/T11", "transport header and sequence masks equal the standard; wrap at 0x3F", r6),
     ("C08.R7", "T3", "reader and writer are reset on every task exit", r7),
+    ("C08.R8", "T8/T2", "fragments survive the link receive buffer wrap-around; a broadcast is a single FIR&FIN segment (shared with C06.R9, C07.R8)", r8),
 ]
